@@ -106,11 +106,13 @@ def gen_program(rng, clock=None, n_events=None, with_bad=True, with_cancel=True,
     return prog
 
 
-def add_stats(rng, prog, kinds=("counter", "tally", "wtally", "persistent"), watch=True, density=0.7, baseline=False):
+def add_stats(rng, prog, kinds=("counter", "tally", "wtally", "persistent"), watch=True, density=0.7, baseline=False, plain=False):
     """statistics created in construct_model + observation actions sprinkled over init and handlers"""
     specs = []
     for k, kind in enumerate(rng.sample(list(kinds), rng.randint(1, len(kinds)))):
         specs.append({"key": f"{kind}{k}", "kind": kind, "via": rng.choice(["register", "event"]), "watch": watch})
+    if plain and rng.random() < 0.4:
+        specs.append({"key": "plain%d" % len(specs), "kind": rng.choice(["plaincounter", "plaintally"]), "via": "register", "watch": False})
     prog["stats"] = specs
     if baseline:
         for sp in specs:
@@ -119,7 +121,7 @@ def add_stats(rng, prog, kinds=("counter", "tally", "wtally", "persistent"), wat
 
     def obs():
         sp = rng.choice(specs)
-        if sp["kind"] == "counter":
+        if sp["kind"] in ("counter", "plaincounter"):
             return ["obs", sp["key"], rng.randint(-3, 9)]
         if sp["kind"] == "wtally":
             return ["obs", sp["key"], rng.choice([0.0, 1.0, 2.5, rng.uniform(0, 5)]), rng.choice([1.0, 4.0, rng.uniform(-10, 10)])]
